@@ -90,6 +90,7 @@ type lexer struct {
 	data string
 	p, pe, m int
 	id string
+	mid string // identifier at the marked position
 }
 
 // initialize/reset lexer with data string to lex
@@ -98,14 +99,16 @@ func (l *lexer) init(data string) {
     l.data = data
 }
 
-// mark the current lexer position
+// mark the current lexer position (and the identifier that goes with it)
 func (l *lexer) mark() {
     l.m = l.p
+    l.mid = l.id
 }
 
-// rewind position to the the previously marked position
+// rewind position (and identifier) to the the previously marked position
 func (l *lexer) rewind() {
     l.p = l.m
+    l.id = l.mid
 }
 
 // get the value of an identifier if that's the current token; otherwise, it's undefined
